@@ -12,7 +12,7 @@ CONSTANTS
   VerBumps = TRUE
   Forges = TRUE
   Legacies = TRUE
-  FailKinds = {"fnerror1", "fatal2", "reqlabel2"}
+  FailKinds = {"fnerror1", "fatal2", "reqlabel2", "reqflip2"}
 VIEW view
 ACTION_CONSTRAINT Emit
 CHECK_DEADLOCK FALSE
